@@ -279,14 +279,12 @@ Proof.
 Qed.
 
 (* ---------------------------------------------------------------- C02 *)
+(* NB: the statement of c02_encode spells out the list-level terms over present_elems instead of naming them: props/C02.v
+   restates its definitions, and converting two DIFFERENT constants whose bodies compute over the closed list
+   bit_range makes both the unifier and the kernel normalise (exponentially); a named constant on the props side
+   against the spelled-out term here unfolds once and matches. *)
 Definition packed (cfg : cfgT) (m m1 : dict) : Prop :=
   exists chunks, pds_to_de m = Ok chunks /\ assign_pds m chunks (pds_bits cfg) = Ok m1.
-
-Definition typed_values_native (cfg : cfgT) (m1 : dict) : bool :=
-  forallb (fun n => match cfg_get cfg n, lookup m1 (KDE n) with
-                    | Some c, Some v => native_valueb c v
-                    | _, _ => true
-                    end) (present_elems m1).
 
 Lemma iw_present_eq : forall m, filter (iw_presentb m) bit_range = present_elems m.
 Proof. intros m. unfold present_elems, iw_presentb. reflexivity. Qed.
@@ -294,20 +292,6 @@ Proof. intros m. unfold present_elems, iw_presentb. reflexivity. Qed.
 Lemma iw_wire_body_eq : forall cfg cd m,
   wire_body cfg cd m = concat_opt (map (iw_elem cfg cd m) (present_elems m)).
 Proof. intros cfg cd m. unfold wire_body, iw_elem. reflexivity. Qed.
-
-Definition wire_body_coerced (cfg : cfgT) (cd : codec) (m : dict) : option bytes :=
-  concat_opt (map (fun n => match cfg_get cfg n, lookup m (KDE n) with
-                            | Some c, Some v => elem_wire c cd (as_native c v)
-                            | _, _ => None
-                            end) (present_elems m)).
-
-Lemma iw_wire_body_co_eq : forall cfg cd m,
-  wire_body_coerced cfg cd m = concat_opt (map (iw_elem_co cfg cd m) (present_elems m)).
-Proof. intros cfg cd m. unfold wire_body_coerced, iw_elem_co. reflexivity. Qed.
-
-Lemma iw_native_eq : forall cfg m,
-  typed_values_native cfg m = forallb (iw_native_at cfg m) (present_elems m).
-Proof. intros cfg m. unfold typed_values_native, iw_native_at. reflexivity. Qed.
 
 Lemma iw_mti_case : forall cd (o : option value) (rest b : bytes),
   (do mti <- match o with
@@ -339,8 +323,14 @@ Lemma c02_encode : forall cfg cd hexbm m b, dumps cfg cd hexbm m = Ok b ->
     (match lookup m KMTI with Some (VStr s) => encode cd s = Ok mti | _ => mti = [] end) /\
     length bm = 16 /\
     (forall n, 1 <= n <= 128 -> bit_set bm n = (Nat.eqb n 1 || existsb (Nat.eqb n) (present_elems m1))) /\
-    wire_body_coerced cfg cd m1 = Some body /\
-    (typed_values_native cfg m1 = true -> wire_body cfg cd m1 = Some body).
+    concat_opt (map (fun n => match cfg_get cfg n, lookup m1 (KDE n) with
+                              | Some c, Some v => elem_wire c cd (as_native c v)
+                              | _, _ => None
+                              end) (present_elems m1)) = Some body /\
+    (forallb (fun n => match cfg_get cfg n, lookup m1 (KDE n) with
+                       | Some c, Some v => native_valueb c v
+                       | _, _ => true
+                       end) (present_elems m1) = true -> wire_body cfg cd m1 = Some body).
 Proof.
   intros cfg cd hexbm m b H. unfold dumps in H.
   apply iw_bind_ok in H. destruct H as [chunks [E1 H]].
@@ -348,8 +338,8 @@ Proof.
   apply iw_bind_ok in H. destruct H as [[present body] [E3 H]].
   cbn [fst snd] in H.
   destruct (iw_enc_fields _ _ _ _ _ _ E3) as [Hp [Hc Hb]].
-  rewrite iw_present_eq in Hp, Hc, Hb. rewrite <- iw_native_eq, <- iw_wire_body_eq in Hb.
-  rewrite <- iw_wire_body_co_eq in Hc.
+  rewrite iw_present_eq in Hp, Hc, Hb. rewrite <- iw_wire_body_eq in Hb.
+  unfold iw_elem_co in Hc. unfold iw_native_at in Hb.
   apply iw_mti_case in H. destruct H as [mti [Hb1 Hb2]].
   exists m1, mti, (bitmap_of present), body.
   split; [exists chunks; split; assumption|].
